@@ -136,9 +136,7 @@ theorem safe_of_traced (o : TraceOpts) (hd : o.stringDictionaryEncoding = false)
     (fields : List Field) (hfields : fields = (mappingFields o fs).toList) :
     ∀ root0, newRoot fields = .ok root0 → Safe root0 := by
   intro root0 h0
-  have hside := sideFs_toList (mappingFields o fs) (mappingFields_side o fs hn)
-  rw [← hfields] at hside
-  have hb := Props.C03.newRoot_builtFor fields root0 (fun f hf => (hside f hf).1) h0
+  have hb := Props.C03.newRoot_builtFor fields root0 h0
   have hofl : Fields.ofList fields = mappingFields o fs := by
     rw [hfields]
     exact ofList_toList' _
